@@ -79,7 +79,7 @@ End C07.
 Check c07_success_runs_the_method_declared_for_success.
 
 (* Non-vacuity: error method declared BEFORE the success method that carries the data parameter *)
-Definition fld (n t : string) (d : option data_params) (p : bool) : rfield := {| rf_name := n; rf_ty := t; rf_data := d; rf_payload := p |}.
+Definition fld (n t : string) (d : option data_params) (p : bool) : rfield := {| rf_name := n; rf_ty := t; rf_data := d; rf_payload := p; rf_bad := false |}.
 Definition ex_ms : list rmethod :=
   [ {| rm_name := "on_err"; rm_on := ROError; rm_handlers := ["on_done"]; rm_fields := [fld "error" "String" None false; fld "p" "u32" None false] |};
     {| rm_name := "on_ok"; rm_on := ROSuccess; rm_handlers := ["on_done"];
